@@ -36,7 +36,7 @@ func (m *minimiser) replay(s *Spec) (*ReplayOutcome, error) {
 	defer os.Remove(p)
 	cmd := exec.Command(os.Args[0], "replay", "-in", p, "-sites", fmt.Sprint(m.sites), "-repeat", fmt.Sprint(m.repeat))
 	logp := filepath.Join(m.tmp, fmt.Sprintf("race-%d", m.tests))
-	cmd.Env = append(filterEnv(os.Environ(), "GORACE"), "GORACE=halt_on_error=0 exitcode=0 history_size=3 log_path="+logp)
+	cmd.Env = append(filterEnv(os.Environ(), "GORACE"), "GORACE=halt_on_error=0 exitcode=0 atexit_sleep_ms=0 history_size=3 log_path="+logp)
 	out, err := cmd.Output()
 	if matches, _ := filepath.Glob(logp + ".*"); len(matches) > 0 {
 		for _, f := range matches {
@@ -169,6 +169,11 @@ func poolRefs(s *Spec) map[int]bool {
 			walk(&s.Tasks[t][i])
 		}
 	}
+	for i := range s.Pool {
+		for _, k := range s.Pool[i].Refs {
+			refs[k] = true
+		}
+	}
 	return refs
 }
 
@@ -190,6 +195,13 @@ func removePoolObj(s *Spec, k int) *Spec {
 	for t := range c.Tasks {
 		for i := range c.Tasks[t] {
 			fix(&c.Tasks[t][i])
+		}
+	}
+	for i := range c.Pool {
+		for j, r := range c.Pool[i].Refs {
+			if r > k {
+				c.Pool[i].Refs[j] = r - 1
+			}
 		}
 	}
 	return c
